@@ -50,6 +50,7 @@ type LeafEv struct {
 	ND       int      `json:"nd"`    // number of draws made (D is cut after 1200 entries)
 	Trunc    int      `json:"trunc"` // 1: D was cut
 	Conc     int      `json:"conc"`  // 1: a call made concurrently with others under real randomness (no draws recorded)
+	Cfg      int      `json:"cfg"`   // 1: the process-wide limits were not the configured ones at some draw of this run, or after it
 	PathProd []int    `json:"pp"`    // product of the bounds of ALL draws of this run, as limbs: the run's own probability is 1/pp
 }
 
@@ -220,6 +221,9 @@ func charCellEvents(id int, sc Scenario, seed int64, rp *spg.CharRecipe) (events
 		}
 		ev.ND = len(ev.D)
 		ev.PathProd = Limbs(prod)
+		if out.CfgTouched {
+			ev.Cfg = 1
+		}
 		if len(ev.D) > 1200 {
 			ev.D, ev.Trunc = ev.D[:1200], 1
 		}
